@@ -1462,6 +1462,29 @@ class Generator:
         if not m:
             return None
         r = self.rng.random()
+        if r < 0.25:
+            # two already optimized (fused) plans over *different* sources combined by one more blockwise op:
+            # nested fused groups with several external inputs
+            cands = [x for x in self.frames() if x.known and x.index_kind == "range" and x.order == "defined" and x.labels == "defined"
+                     and self.cols_of(x, NUMERIC)]
+            pairs = [(a, b) for a in cands for b in cands if a.root != b.root and set(self.cols_of(a, NUMERIC)) & set(self.cols_of(b, NUMERIC))]
+            if pairs:
+                a, b = self.rng.choice(pairs)
+                c = self.rng.choice(sorted(set(self.cols_of(a, NUMERIC)) & set(self.cols_of(b, NUMERIC))))
+                outs = []
+                for x, (fn, v) in ((a, ("add", 1)), (b, ("mul", 3))):
+                    s0 = self.try_add({"op": "getcol", "src": x.id, "column": c}, x.order, x.labels, x.root, x.index_kind)
+                    if s0 is None:
+                        return None
+                    s1 = self.try_add({"op": "series_map", "src": s0.id, "fn": fn, "value": v}, x.order, x.labels, x.root, x.index_kind)
+                    if s1 is None:
+                        return None
+                    s2 = self.try_add({"op": "preoptimize", "src": s1.id, "fuse": True}, x.order, x.labels, self.next_id, x.index_kind)
+                    if s2 is None:
+                        return None
+                    s2.known = True
+                    outs.append(s2)
+                return self.try_add({"op": "binop", "src": [outs[0].id, outs[1].id], "fn": "sub"}, "defined", "defined", self.next_id, "range")
         if r < 0.35:
             op = {"op": "clear_divisions", "src": m.id}
         elif r < 0.7:
